@@ -248,6 +248,19 @@ def handle (line : String) : String :=
   match toks with
   | "cli" :: rest => (cliRun rest).getD "bad-request"
   | ["const", x] => x
+  | ["limchk", ws, sin, sout, hex, verdict, tr] =>
+    -- the request carries the verdict of the canonical semantics computed earlier; re-derive and confirm
+    (do
+      let w ← ws.toNat?; let env ← Driver.decodeEnv sin sout
+      let bs ← Driver.decodeHex hex
+      let p ← Bf.tree (Driver.kindsOfBytes bs)
+      if verdict = "div" then
+        some (match Cert.certify (w := w) 60000 p env with
+          | .diverges _ _ => if Driver.bfTrace w 200000 env (Driver.kindsOfBytes bs) = "fuel " ++ tr then "ok" else "canonical-mismatch"
+          | _ => "canonical-mismatch")
+      else
+        let rep := Driver.bfTrace w 200000 env (Driver.kindsOfBytes bs)
+        some (if rep = verdict ++ " " ++ tr then "ok" else "canonical-mismatch")).getD "bad-request"
   | ["divchk", ws, sin, sout, hex, verdict, tr, _long, _budget] =>
     -- the request carries the verdict of a previous `bfcert`; re-derive it and confirm
     (do
@@ -279,6 +292,19 @@ def handle (line : String) : String :=
       | some b => Driver.encodeBlock b
       | none => "bad-request"
     | none => "bad-request"
+  | "jitrun" :: ws :: lim :: bud :: fs :: sin :: sout :: win :: bc =>
+    -- the JIT executes the same bytecode semantics (unlimited mode); no layout in the reply
+    (do
+      let w ← ws.toNat?; let l ← Driver.boolOf lim; let b ← bud.toNat?; let fuel ← fs.toNat?
+      let env ← Driver.decodeEnv sin sout
+      let wn ← Driver.boolOf win
+      let p ← decodeBc w bc
+      let sw (c : Bc.Cfg w) : String := if wn then Driver.window c.st else "-"
+      some (match Bc.run p l b fuel env with
+        | .done c | .stopped c => "ok " ++ Driver.encodeTrace c.st.trace ++ " " ++ sw c ++ " b" ++ toString c.budget
+        | .interrupted c => "interrupted " ++ Driver.encodeTrace c.st.trace ++ " " ++ sw c ++ " b" ++ toString c.budget
+        | .bad c => "bad " ++ Driver.encodeTrace c.st.trace
+        | .outOfFuel c => "fuel " ++ Driver.encodeTrace c.st.trace)).getD "bad-request"
   | "bcrun" :: ws :: lim :: bud :: fs :: sin :: sout :: win :: bc =>
     (do
       let w ← ws.toNat?; let l ← Driver.boolOf lim; let b ← bud.toNat?; let fuel ← fs.toNat?
